@@ -35,6 +35,7 @@ def check(model, tier):
     structure.r14_4_join_columns(ctx)
     structure.r14_5_noop_identity(ctx)
     structure.r14_6_engine_of_node(ctx)
+    structure.r14_9_engine_plumbing(ctx)
     expressions.r13_4_required_columns(ctx, rule="R14.7")
     structure.r06_1_flags(ctx, rule="R14.8")
     run.assume("every SQL-engine relation handed to the engine is a Select (R17.2, checked under C17)")
